@@ -185,6 +185,65 @@ func (x *bvCtx) wireLeafOf(v ssa.Value) (int, bool) {
 	return 0, false
 }
 
+// wireGroupOf recognises a value assembled from consecutive wire octets by shifts and ors
+// (uint16(b[2])<<8 | uint16(b[3])) as the big-endian integer those octets form - the same leaf a
+// binary.BigEndian.UintN call on that span yields.
+func (x *bvCtx) wireGroupOf(v ssa.Value) (int, bool) {
+	switch v.(type) {
+	case *ssa.BinOp, *ssa.Convert:
+	default:
+		return 0, false
+	}
+	if _, isInt := typeBits(v.Type()); !isInt {
+		return 0, false
+	}
+	bv := x.Eval(v)
+	// octet k (k = 0 least significant) must be bits 0..7 of a 1-octet wire leaf; higher bits zero
+	var leaves []int
+	for k := 0; k*8 < len(bv); k++ {
+		first := bv[k*8]
+		if first.K == bZero {
+			// all remaining bits must be zero
+			for i := k * 8; i < len(bv); i++ {
+				if bv[i].K != bZero {
+					return 0, false
+				}
+			}
+			break
+		}
+		if first.K != bRef {
+			return 0, false
+		}
+		l := x.leaves[first.Leaf]
+		if l.Kind != "wire" || l.Octets != 1 {
+			return 0, false
+		}
+		for i := 0; i < 8; i++ {
+			b := bv[k*8+i]
+			if b.K != bRef || b.Leaf != first.Leaf || b.Idx != i {
+				return 0, false
+			}
+		}
+		leaves = append(leaves, first.Leaf)
+	}
+	if len(leaves) < 2 {
+		return 0, false
+	}
+	// leaves[0] is the last octet on the wire; offsets must descend by one towards the most significant octet
+	lo := x.leaves[leaves[len(leaves)-1]]
+	for k, id := range leaves {
+		l := x.leaves[id]
+		if l.RootKey != lo.RootKey {
+			return 0, false
+		}
+		want := lo.Off.add(konst(int64(len(leaves)-1-k)), 1)
+		if l.Off.key() != want.key() {
+			return 0, false
+		}
+	}
+	return x.wireLeaf(lo.Root, lo.Off, len(leaves), v), true
+}
+
 func (x *bvCtx) rootKey(root ssa.Value) string {
 	if x.rootName != nil {
 		return x.rootName(root)
@@ -458,7 +517,7 @@ func (x *bvCtx) eval0(v ssa.Value, w int) BV {
 		var first BV
 		same := true
 		for i, ed := range e.Edges {
-			if x.f.Dead[e.Block().Preds[i]] {
+			if x.f.predDead(e.Block(), i) {
 				continue
 			}
 			ev := x.Eval(ed)
